@@ -21,6 +21,7 @@ func runC17(r *engine.Run) {
 	r.Rule("AGREE-sentinels", "the set of errors iterate counts as 'absent node' equals the set HasMissingNodes maps to (true, nil), and contains the store's ErrNodeNotFound, iterate's own ErrIteratingChildNodes and the detection handler's ErrMissingNodes")
 	r.Rule("AGREE-lockstep", "see C14: the store-level repair (MergeState) hands every foreign node to the target store together with its own key")
 	r.Rule("FRESH-donor", "nodes handed out by the donor store during MergeDB are not modified (FRESH-node of C03 applied to the donor-store source)")
+	r.Rule("DOM-record", "addMissingNodeKeys appends the key of the failed access to the recorded missing keys on every path (no cap, filter or early return): every absent node a lookup hits is among the reported keys")
 	r.NotDec = append(r.NotDec, "exactness of the reported key set for every removal subset")
 	errGetNode(r)
 	depCount(r)
@@ -33,6 +34,7 @@ func runC17(r *engine.Run) {
 	}
 	donorCovered(r)
 	lockstep(r)
+	domRecord(r, "DOM-record")
 }
 
 // resultValue resolves the i-th result of ret through a named-result cell
@@ -415,4 +417,48 @@ func donorCovered(r *engine.Run) {
 	// the donor's node must be stored under its own hash without re-stamping: no SetOrigin reachable with the donor source (FRESH) and key = GetHashBytes(node)
 	mset := r.Fn(rule, pkgUtil, "MerklePatriciaTrie", "MergeDB")
 	_ = mset
+}
+
+// domRecord: every failed node access is recorded: addMissingNodeKeys appends
+// its key on every path (no cap, no filter), and getNode calls it on the
+// not-found path.
+func domRecord(r *engine.Run, rule string) {
+	f := r.Fn(rule, pkgUtil, "MerklePatriciaTrie", "addMissingNodeKeys")
+	if f == nil {
+		return
+	}
+	stores := map[*ssa.BasicBlock]bool{}
+	engine.Instrs(f, func(in ssa.Instruction) {
+		st, ok := in.(*ssa.Store)
+		if !ok {
+			return
+		}
+		if fld := engine.FieldOf(st.Addr); fld == nil || fld.Name() != "missingNodeKeys" {
+			return
+		}
+		if c, ok := st.Val.(*ssa.Call); ok {
+			if b, ok := c.Call.Value.(*ssa.Builtin); ok && b.Name() == "append" {
+				if fld := fieldLoadOf(c.Call.Args[0]); fld != nil && fld.Name() == "missingNodeKeys" {
+					stores[st.Block()] = true
+				}
+			}
+		}
+	})
+	n := 0
+	for _, ret := range engine.Returns(f) {
+		if ret.Block().Comment == "recover" {
+			continue
+		}
+		n++
+		good := stores[ret.Block()]
+		if !good {
+			paths, ok := engine.PathFactsAvoid(f, ret.Block(), stores, 4096)
+			good = ok && len(paths) == 0
+		}
+		r.Check(good && len(stores) > 0, rule, fn(f)+"|append on every path", r.P.Pos(ret.Pos()), "every path appends the key to the recorded missing keys",
+			"a failed node access can return without being recorded (cap, filter or early return): the lookup still fails, but the key is not among the reported missing keys, so a repair driven by the report leaves the node absent")
+	}
+	if n < 1 {
+		r.Anchor(rule, fmt.Errorf("unresolved anchor: returns of addMissingNodeKeys"))
+	}
 }
